@@ -353,6 +353,7 @@ pub fn gen_robot(w: &mut Rng, k: &CellKnobs) -> CellSpec {
         ctor: k.ctor,
         limits_ctor: *w.pick(&[0u8, 0, 0, 1, 2, 3]),
         parallelogram: None,
+        clone_safety: false,
     }
 }
 
